@@ -358,6 +358,17 @@ func fieldPathScenario(rep *report.R, name string, d patchDims) report.Scenario 
 		psnap := p.DeepCopy()
 		r1, srcBefore, tgtBefore := runApply(p, v.mk(), only)
 		r2, _, _ := runApply(p, v.mk(), only)
+		if ts.multi && ts.name == "wildcard-map" {
+			// The destinations are the keys of a Go map, whose iteration
+			// order is random (for a two-key map the second key comes first
+			// about once in eight iterations): two runs cannot expose an
+			// order dependence reliably, and a violation must reproduce when
+			// replayed, so run until a difference shows, up to 120 times
+			// (an order dependence stays unseen with probability < 1e-6).
+			for i := 0; i < 118 && r1.same(r2); i++ {
+				r2, _, _ = runApply(p, v.mk(), only)
+			}
+		}
 		r.Logf("err=%v panic=%v", r1.err, r1.pan)
 
 		changed := !strictEqual(r1.target, tgtBefore)
